@@ -50,8 +50,10 @@ results="${results%,}}"
 git checkout -- .
 rm -rf "$SE_ROOT/root"
 mkdir -p $DEST
-cp "$SRC/patch.diff" "$SRC/demo.rs" $DEST/
-[ -f "$SRC/notes.md" ] && cp "$SRC/notes.md" $DEST/notes.md
+if [ "$(realpath "$SRC")" != "$(realpath "$DEST")" ]; then
+  cp "$SRC/patch.diff" "$SRC/demo.rs" $DEST/
+  [ -f "$SRC/notes.md" ] && cp "$SRC/notes.md" $DEST/notes.md
+fi
 python3 - "$DEST/meta.json" "$SID" "$PROP" "$T1" "$D1" "$D2" "$caught" "$results" <<'PY'
 import json, sys
 path, sid, prop, t1, d1, d2, caught, results = sys.argv[1:]
@@ -67,6 +69,7 @@ json.dump({
   "confirmed": {"repo_test_suite_with_mutant_pass/fail": t1, "demo_with_mutant_pass/fail": d1, "demo_without_mutant_pass/fail": d2,
                 "how": "tools/seed_eval.sh: scratch clone of /repo at HEAD outside /repo and /verif; git apply patch.diff; cargo test --offline; cp demo.rs tests/; cargo test --offline --test demo; git checkout -- src; cargo test --offline --test demo"},
   "quick_checks_against_mutant": json.loads(results),
+  "budget_percent_of_quick": int(__import__("os").environ.get("VERIF_SCALE", "100")),
   "caught_by": caught.split(),
 }, open(path, "w"), indent=1)
 PY
